@@ -18,6 +18,7 @@ CELLS = {
     "lefthanded": [[0, 3, 0], [3, 0, 0], [1, 1, 4]],
     "cubic2": [[2, 0, 0], [0, 2, 0], [0, 0, 2]],
     "hexlike": [[4, 0, 0], [-2, 3, 0], [0, 0, 3]],
+    "negdiag": [[2, 0, 0], [0, -3, 0], [0, 0, -4]],  # exactly diagonal cell matrix with negative entries (a cuboid turned by 180 degrees about x)
     "obtuse": [[3, 0, 0], [0, 3, 0], [-3, -3, 3]],  # cubic lattice described with c' = c - a - b: a+b+c is the SHORT diagonal
 }
 PBCS = [(a, b, c) for a in (False, True) for b in (False, True) for c in (False, True)]
